@@ -29,7 +29,7 @@ def classify(spec, cex):
     if spec['fn'].startswith('fork_inherited_session') and any("on the parent's" in w for w in why):
         # everything wrong lies inside the inherited session <=> the same arguments pass with the region excluded
         twin = spec['fn'].replace('fork_inherited_session', 'fork_mid_session')
-        if getattr(h, twin)(**cex):
+        if getattr(h, twin)(d=0, **cex):
             return 'fork-inside-open-session-child-continues-on-parent-connection'
     if spec['fn'].startswith('fork_then_disconnect_first') and any("on the parent's" in w for w in why):
         # everything wrong lies inside "disconnect() before the child ever connected" <=> passes with that region excluded
